@@ -17,7 +17,9 @@ from h_fs import tree_tokens
 
 NAMES = ["a", "b", "c", ".d", "e.txt", "F.TXT", "a*b", "[x]", "g"]
 NAME_PATS = ["*", "*.txt", "a*", "?", "[ab]", "[!a]*", ".*", "*.TXT", "g", "a[*]b", "e.???"]
-GLOB_PATS = ["*", "*/*", "**", "a/*", "**/*.txt", "a/**", "*/b/*", "a/b", "**/g", "a/b/", "*/", "[ab]/*", "a/?"]
+# '**' only as the leading component: elsewhere fs.glob's regex lets it cross component boundaries
+# (recorded finding of C14), which would only re-report that finding here
+GLOB_PATS = ["*", "*/*", "**", "a/*", "**/*.txt", "*/b/*", "a/b", "**/g", "a/b/", "*/", "[ab]/*", "a/?", "**/b/*"]
 
 
 def all_trees(names, max_nodes):
